@@ -1,6 +1,7 @@
 (* Xml/LoadRecordsTree.v — the bridge to the tree side (read-only use of Tree/MergeSpec.v idents_of / refs_of and
-   Tree/LoadRefineIndex.v StOf): on a tree whose nodes satisfy LateFreeP, SnLeafP and RefPlainP the lists the loader
-   records are the specification-side lists, so StOf holds for the final parser state of `load`. *)
+   Tree/LoadRefineIndex.v StOf): on a tree whose nodes satisfy SnLeafP and RefPlainP (every loaded tree does) the lists the
+   loader records are the specification-side lists, so StOf holds for the final parser state of `load`.  (Before the fix
+   of the late SHORT-NAME defect LateFreeP was needed as well; the statements with it are kept.) *)
 From Coq Require Import Arith Lia.
 From AV Require Import Base.Bytes Base.Outcome Hash.HashModel Spec.SpecTypes Spec.SpecOps
   Xml.Lexer Xml.Parser Xml.TablesOk Xml.StrictValidDef Xml.LoadRecords Xml.LoadRecordsRegular.
@@ -51,18 +52,13 @@ Proof.
 Qed.
 
 Lemma go_agree pos r : forall k path,
-  (forall c, In (inl c) r -> named_sn T c = false) ->
   (forall c, In (inl c) r -> forall p ps, pidents T p ps c = idents_of T p ps c) ->
-  pid_go T (pidents T) pos k path r = ido_go path pos k r.
+  pid_go T (pidents T) pos (S k) path r = ido_go path pos (S k) r.
 Proof.
-  induction r as [|[c|v] r IH]; intros k path NS AG; [reflexivity| |].
-  - cbn [pid_go ido_go]. rewrite (AG c (or_introl eq_refl)).
-    assert (REST : pid_go T (pidents T) pos (S k) path r = ido_go path pos (S k) r).
-    { apply IH; intros c0 I0; [apply NS|apply AG]; right; exact I0. }
-    specialize (NS c (or_introl eq_refl)). unfold named_sn in NS.
-    destruct (e_name c =? name_short_name T); [|rewrite REST; reflexivity].
-    destruct (first_string c); [discriminate NS|rewrite REST; reflexivity].
-  - cbn [pid_go ido_go]. apply IH; intros c0 I0; [apply NS|apply AG]; right; exact I0.
+  induction r as [|[c|v] r IH]; intros k path AG; [reflexivity| |].
+  - cbn [pid_go ido_go]. rewrite (AG c (or_introl eq_refl)). cbn [Nat.eqb]. rewrite andb_false_r.
+    rewrite IH; [reflexivity|]. intros c0 I0. apply AG. right. exact I0.
+  - cbn [pid_go ido_go]. apply IH. intros c0 I0. apply AG. right. exact I0.
 Qed.
 
 Lemma rgo_agree pos r : forall k,
@@ -74,18 +70,21 @@ Proof.
   - cbn [pref_go rfo_go]. destruct v; cbn [app]; apply IH; intros c0 I0; apply AG; right; exact I0.
 Qed.
 
-Theorem idents_agree t :
-  AllNodes (fun ty l => LateFreeP T ty l /\ SnLeafP T ty l) t ->
-  forall path pos, pidents T path pos t = idents_of T path pos t.
+Lemma AllNodes_impl (P Q : etype -> list (etree + cdata) -> Prop) t :
+  (forall ty l, P ty l -> Q ty l) -> AllNodes P t -> AllNodes Q t.
+Proof. intros PQ. induction 1 as [n ty a content cm HP _ IH]. constructor; [exact (PQ _ _ HP)|exact IH]. Qed.
+
+(* after the fix of the late SHORT-NAME defect only the first content item can name an element, on both sides *)
+Theorem idents_agree_all t :
+  AllNodes (SnLeafP T) t -> forall path pos, pidents T path pos t = idents_of T path pos t.
 Proof.
-  induction 1 as [n ty a content cm (LF & SL) _ AGI].
-  assert (TL : forall x r, content = x :: r -> forall c, In (inl c) r -> named_sn T c = false).
-  { intros x r -> c I. apply In_nth_error in I as (k & NE). exact (LF k c NE). }
+  induction 1 as [n ty a content cm SL _ AGI].
   intros path pos. rewrite pidents_node, idents_of_eq. destruct content as [|[c0|v] r].
   - reflexivity.
   - assert (REST : forall p, pid_go T (pidents T) pos 1 p r = ido_go p pos 1 r).
-    { intros p. apply go_agree; [exact (TL _ _ eq_refl)|intros c I; apply AGI; right; exact I]. }
+    { intros p. apply go_agree. intros c I. apply AGI. right. exact I. }
     unfold e_item_name. cbn [e_content pid_go ido_go]. change (e_first_string c0) with (first_string c0).
+    cbn [Nat.eqb]. rewrite andb_true_r.
     destruct (e_name c0 =? name_short_name T) eqn:SN.
     + destruct (first_string c0) as [nm|] eqn:FS; cbv zeta.
       * apply N.eqb_eq in SN. destruct (no_elems_pidents path (O :: pos) c0 (SL c0 (or_introl eq_refl) SN)) as [-> _].
@@ -93,8 +92,13 @@ Proof.
         cbn [app]. rewrite REST. reflexivity.
       * cbn [app]. rewrite (AGI c0 (or_introl eq_refl)), REST. reflexivity.
     + cbv zeta. cbn [app]. rewrite (AGI c0 (or_introl eq_refl)), REST. reflexivity.
-  - unfold e_item_name. cbn [e_content pid_go ido_go app]. cbv zeta. apply go_agree; [exact (TL _ _ eq_refl)|intros c I; apply AGI; right; exact I].
+  - unfold e_item_name. cbn [e_content pid_go ido_go app]. cbv zeta. apply go_agree. intros c I. apply AGI. right. exact I.
 Qed.
+
+Theorem idents_agree t :
+  AllNodes (fun ty l => LateFreeP T ty l /\ SnLeafP T ty l) t ->
+  forall path pos, pidents T path pos t = idents_of T path pos t.
+Proof. intros H. apply idents_agree_all. exact (AllNodes_impl _ _ t (fun ty l HL => proj2 HL) H). Qed.
 
 Theorem refs_agree t : AllNodes (RefPlainP T) t -> forall pos, prefs T pos t = refs_of T pos t.
 Proof.
@@ -119,22 +123,33 @@ Proof.
   rewrite RF, (refs_agree T t (load_ref_plain T tab_el tab_at tab_en check_fn float_parse s bs t st OK RC L)). reflexivity.
 Qed.
 
-(* identifiables: when no SHORT-NAME with text comes late *)
+(* identifiables: unconditional on the tree as well (since the fix of the late SHORT-NAME defect) *)
+Theorem load_idents_of_all T tab_el tab_at tab_en check_fn float_parse s bs t st :
+  tables_ok T = true -> sn_charsb T = true ->
+  load s T tab_el tab_at tab_en check_fn float_parse bs = Val (Ret t st) -> p_idents st = rev (idents_of T [] [] t).
+Proof.
+  intros OK SC L. destruct (load_records T tab_el tab_at tab_en check_fn float_parse s bs t st L) as (ID & _ & _ & _).
+  rewrite ID, (idents_agree_all T t (load_sn_leaf T tab_el tab_at tab_en check_fn float_parse s bs t st OK SC L)). reflexivity.
+Qed.
+
+Theorem load_StOf_all T tab_el tab_at tab_en check_fn float_parse s bs t st :
+  tables_ok T = true -> sn_charsb T = true -> ref_charsb T = true ->
+  load s T tab_el tab_at tab_en check_fn float_parse bs = Val (Ret t st) -> StOf T st t.
+Proof.
+  intros OK SC RC L. split.
+  - exact (load_idents_of_all T tab_el tab_at tab_en check_fn float_parse s bs t st OK SC L).
+  - exact (load_refs_of T tab_el tab_at tab_en check_fn float_parse s bs t st OK RC L).
+Qed.
+
+(* the statements as they were before the fix (with the then necessary condition on the tree) *)
 Theorem load_idents_of T tab_el tab_at tab_en check_fn float_parse s bs t st :
   tables_ok T = true -> sn_charsb T = true ->
   load s T tab_el tab_at tab_en check_fn float_parse bs = Val (Ret t st) ->
   AllNodes (LateFreeP T) t -> p_idents st = rev (idents_of T [] [] t).
-Proof.
-  intros OK SC L LF. destruct (load_records T tab_el tab_at tab_en check_fn float_parse s bs t st L) as (ID & _ & _ & _).
-  rewrite ID, (idents_agree T t (AllNodes_and _ _ _ LF (load_sn_leaf T tab_el tab_at tab_en check_fn float_parse s bs t st OK SC L))). reflexivity.
-Qed.
+Proof. intros OK SC L _. exact (load_idents_of_all T tab_el tab_at tab_en check_fn float_parse s bs t st OK SC L). Qed.
 
 Theorem load_StOf T tab_el tab_at tab_en check_fn float_parse s bs t st :
   tables_ok T = true -> sn_charsb T = true -> ref_charsb T = true ->
   load s T tab_el tab_at tab_en check_fn float_parse bs = Val (Ret t st) ->
   AllNodes (LateFreeP T) t -> StOf T st t.
-Proof.
-  intros OK SC RC L LF. split.
-  - exact (load_idents_of T tab_el tab_at tab_en check_fn float_parse s bs t st OK SC L LF).
-  - exact (load_refs_of T tab_el tab_at tab_en check_fn float_parse s bs t st OK RC L).
-Qed.
+Proof. intros OK SC RC L _. exact (load_StOf_all T tab_el tab_at tab_en check_fn float_parse s bs t st OK SC RC L). Qed.
